@@ -327,6 +327,11 @@ def run(program, rep, tier):
                     op = _dead_op(e)
                     if not op or op[0] != 'discard':
                         continue
+                    if m.name == applier_name and e.depth == 0:
+                        # the applier itself takes the mark away before the
+                        # teardown (what its pop() does): that is the
+                        # protocol of C05.progress, not an early discard
+                        continue
                     gone = any(_row_delete_key(x) == op[1] for x in tr[:i])
                     d = early.setdefault((norm(e.node), e.node.lineno, m),
                                          {'ok': 0, 'bad': 0})
@@ -447,7 +452,11 @@ def run(program, rep, tier):
                             # drawn from a snapshot / live iteration
                             guard = any(
                                 x.kind == 'cond' and x.extra is True
-                                and x.sym.text == f'{ent} in {E}'
+                                and x.sym.text in (f'{ent} in {E}',
+                                                   # still marked in the LIVE
+                                                   # set: has a row (subset
+                                                   # invariant, maintain arm)
+                                                   f'{ent} in {DEAD}')
                                 for x in tr[:i])
                             if not guard:
                                 unguarded = (e, ent)
